@@ -423,6 +423,14 @@ class StmtMixin:
     def havoc_value(self, name: str, current: Optional[V], desc: Any) -> V:
         hint = self.ctx.fresh_name(f"{name}@loop")
         if desc is not None:
+            if isinstance(desc, (dsl.SeqOf, dsl.DictOf)) and isinstance(current, (ListV, SeqV, DictV)):
+                # a mutable container: keep identity (aliases see the havoc), replace its content
+                new = self.fresh(desc, hint)
+                if isinstance(current, ListV):
+                    return new
+                current.__class__ = new.__class__
+                current.__dict__.update(new.__dict__)
+                return current
             if isinstance(desc, dsl.Opt):
                 if self.ctx.decide(2) == 0:
                     return NONE
@@ -468,6 +476,8 @@ class StmtMixin:
         args = []
         for name in names:
             value = (extra or {}).get(name)
+            if value is None and name == "effects":
+                value = ListV([TupleV([StrV(s=op), path]) for op, path in self.effects])
             if value is None:
                 value = frame.lookup(name)
             if value is None and name in self.entry_values:
